@@ -89,7 +89,7 @@ type inRow struct {
 	V   string `json:"v"`             // "" absent | "null(int64)" | int literal
 	B   string `json:"b"`             // "" absent | "null(bool)" | true | false
 	W   bool   `json:"w"`
-	F   string `json:"f"` // int literal or string literal (never absent: see fuse finding)
+	F   string `json:"f"` // "" absent (sparse pass only) | {a:int} | {a:"x"}
 }
 
 func (r inRow) zson(withSec bool) string {
